@@ -40,6 +40,23 @@ class Obj:
         self.f = dict(kw)
 
 
+class Ref:
+    """Address of a named object whose members live in the environment under the prefix `name`."""
+    __slots__ = ("name",)
+
+    def __init__(self, name):
+        self.name = name
+
+    def __repr__(self):
+        return "Ref(%s)" % self.name
+
+    def __eq__(self, o):
+        return isinstance(o, Ref) and o.name == self.name
+
+    def __hash__(self):
+        return hash(self.name)
+
+
 class _Return(Exception):
     def __init__(self, v):
         self.v = v
@@ -123,12 +140,17 @@ class Interp:
                 init = [c for c in kids(decl) if c.get("kind")]
                 if init:
                     return self.ev(init[-1])
+            if any(k2.startswith(key + ".") or k2.startswith(key + "->") for k2 in self.env):
+                return Ref(key)
             raise Unsupported("free variable %s at line %s" % (key, e.get("line")))
         if k == "MemberExpr":
-            key = canon(e)
+            key = self.member_key(e)
             if key in self.env:
                 return self.env[key]
-            base = self.ev(ks[0]) if ks else None
+            try:
+                base = self.ev(ks[0]) if ks else None
+            except Unsupported:
+                base = None
             if isinstance(base, Obj) and e.get("name") in base.f:
                 return base.f[e.get("name")]
             raise Unsupported("unbound member %s at line %s" % (key, e.get("line")))
@@ -138,6 +160,14 @@ class Interp:
             op = e.get("opcode")
             if op in ("++", "--"):
                 raise Unsupported("increment at line %s" % e.get("line"))
+            if op == "&":
+                return Ref(self.member_key(ks[0]))
+            if op == "*":
+                inner = strip(ks[0])
+                key = self.member_key(inner)
+                v0 = self.env.get(key)
+                if isinstance(v0, Ref):
+                    return v0
             v = self.ev(ks[0])
             if op == "-":
                 if isinstance(v, SymVal):
@@ -156,8 +186,6 @@ class Interp:
             if op == "~":
                 return ~_raw(v)
             if op == "*":
-                return v
-            if op == "&":
                 return v
             raise Unsupported("unary %s" % op)
         if k == "BinaryOperator":
@@ -206,6 +234,38 @@ class Interp:
         if k == "SubstNonTypeTemplateParmExpr":
             return self.ev(ks[-1])
         raise Unsupported("expression kind %s at line %s" % (k, e.get("line")))
+
+    def member_key(self, e):
+        """Environment key of a member access, following local pointers/references to named objects."""
+        e = strip(e)
+        k = e.get("kind")
+        if k == "MemberExpr":
+            ks = kids(e)
+            if not ks:
+                return e.get("name")
+            b = strip(ks[0])
+            if b.get("kind") == "CXXThisExpr":
+                return e.get("name")
+            bk = self.member_key(b)
+            # a local whose value is the address of a named object
+            v = self.env.get(bk) if bk is not None else None
+            if isinstance(v, Ref):
+                return v.name + "." + e.get("name")
+            return "%s%s%s" % (bk, "->" if e.get("isArrow") else ".", e.get("name"))
+        if k == "DeclRefExpr":
+            return e.get("referencedDecl", {}).get("name")
+        if k == "UnaryOperator" and e.get("opcode") == "*":
+            inner = self.member_key(kids(e)[0])
+            v = self.env.get(inner)
+            if isinstance(v, Ref):
+                return v.name
+            return inner
+        if k == "CXXOperatorCallExpr":
+            ks = kids(e)
+            op = strip(ks[0]).get("referencedDecl", {}).get("name", "")
+            if op in ("operator->", "operator*") and len(ks) == 2:
+                return self.member_key(ks[1])
+        return canon(e)
 
     def _truth(self, v, node):
         if isinstance(v, SymVal):
@@ -334,17 +394,20 @@ class Interp:
         sub = Interp(db, {}, self.log, self.call_hook, self.max_depth)
         sub.depth = self.depth + 1
         sub.effects = self.effects
+        mb = None
         if e.get("kind") == "CXXMemberCallExpr":
             mb = db.member_base(e)
+        elif e.get("kind") == "CXXOperatorCallExpr" and f.kind == "CXXMethodDecl" and args_nodes:
+            mb = args_nodes[0]
+            args_nodes = args_nodes[1:]
+        if mb is not None or e.get("kind") == "CXXMemberCallExpr":
             # member functions read fields of *this through bare member names: map them
             if mb is not None:
-                bkey = canon(mb)
-                pre = bkey + ("->" if dqt(mb).rstrip().endswith("*") else ".")
-                for k2, v2 in self.env.items():
-                    if k2.startswith(pre):
-                        sub.env[k2[len(pre):]] = v2
-                    elif bkey == "this":
-                        sub.env[k2] = v2
+                bkey = self.member_key(mb)
+                for pre in (bkey + ".", bkey + "->"):
+                    for k2, v2 in self.env.items():
+                        if k2.startswith(pre):
+                            sub.env[k2[len(pre):]] = v2
                 if strip(mb).get("kind") == "CXXThisExpr":
                     sub.env.update(self.env)
         for p, a in zip(f.params, args_nodes):
@@ -353,15 +416,21 @@ class Interp:
             a0 = strip(a)
             if "&" in pt or pt.rstrip().endswith("*"):
                 # reference / pointer to an object: alias its member symbols
-                akey = canon(a0)
-                if akey.startswith("(*") and akey.endswith(")"):
-                    akey = akey[2:-1]
+                akey = self.member_key(a0)
+                try:
+                    av = self.ev(a0)
+                except Unsupported:
+                    av = None
+                if isinstance(av, Ref):
+                    akey = av.name
                 found = False
                 for k2, v2 in self.env.items():
                     for sep in (".", "->"):
                         if k2.startswith(akey + sep):
                             sub.env[pname + ("->" if pt.rstrip().endswith("*") else ".") + k2[len(akey) + len(sep):]] = v2
                             found = True
+                if found and pt.rstrip().endswith("*"):
+                    sub.env.setdefault(pname, Ref(akey))
                 if akey in self.env:
                     sub.env[pname] = self.env[akey]
                     found = True
